@@ -29,6 +29,20 @@ theorem asInsufficientFunds_ok {α : Type} (x : M α) (v : α) (h : asInsufficie
   | ok a => simpa [asInsufficientFunds] using h
   | error e => cases e <;> simp [asInsufficientFunds] at h
 
+theorem stepValidateBasicR_id (mode : Mode) (s s' : State) (tx : Tx) (h : stepValidateBasicR mode s tx = .ok s') : s' = s := by
+  unfold stepValidateBasicR at h
+  split at h
+  · cases h; rfl
+  · simp only [stepValidateBasic, bind_eq_ok, pure_eq_ok] at h; obtain ⟨_, _, _, _, rfl⟩ := h; rfl
+
+theorem stepSigVerificationR_id (mode : Mode) (s s' : State) (tx : Tx) (h : stepSigVerificationR mode s tx = .ok s') : s' = s := by
+  unfold stepSigVerificationR at h
+  split at h
+  · cases h; rfl
+  · simp only [stepSigVerification, bind_eq_ok] at h
+    obtain ⟨_, _, h⟩ := h
+    split at h <;> simp_all
+
 theorem anteStepM_effect (mode : Mode) (tx : Tx) (s s' : State) (name : String)
     (h : anteStepM mode tx s name = .ok s') : AnteEffect s tx s' := by
   unfold anteStepM at h
@@ -38,7 +52,8 @@ theorem anteStepM_effect (mode : Mode) (tx : Tx) (s s' : State) (name : String)
     split at hf <;> (try cases hf) <;> simp only at h
     all_goals first
       | (cases h; exact .none rfl)
-      | (simp only [stepValidateBasic, bind_eq_ok, pure_eq_ok] at h; obtain ⟨_, _, _, _, rfl⟩ := h; exact .none rfl)
+      | (exact .none (stepValidateBasicR_id _ _ _ _ h))
+      | (exact .none (stepSigVerificationR_id _ _ _ _ h))
       | (exact .none (feeDecorator_id _ _ _ _ _ h))
       | (simp only [stepSetPubKey, bind_eq_ok, pure_eq_ok] at h; obtain ⟨_, _, _, _, _, _, rfl⟩ := h; exact .none rfl)
       | skip
@@ -73,11 +88,6 @@ theorem anteStepM_effect (mode : Mode) (tx : Tx) (s s' : State) (name : String)
             · exact Or.inl hc
             · exact Or.inr (by simpa using hc)
         exact .deduct payer src b hp' hsrc' (asInsufficientFunds_ok _ _ hb) rfl
-    · -- SigVerification
-      simp only [stepSigVerification, bind_eq_ok] at h
-      obtain ⟨_, _, h⟩ := h
-      split at h <;> simp_all
-      exact .none rfl
   · cases h
 
 /-- the whole ante chain is a sequence of ante effects -/
